@@ -3,7 +3,7 @@
 Require Extraction.
 Require ExtrOcamlBasic.
 From Coq Require Import ZArith NArith.
-From GV Require Import Front.Token Front.Parse Front.Print Front.Lex Front.LexStr Front.Stat.
+From GV Require Import Front.Token Front.Parse Front.Print Front.Lex Front.LexStr Front.Stat Front.StatPrint.
 Extraction Language OCaml.
 Extraction "model.ml" Z.add N.add Nat.add Pos.add
   Token.binop_of Token.unop_of Token.level
@@ -11,4 +11,4 @@ Extraction "model.ml" Z.add N.add Nat.add Pos.add
   Print.print Print.norm Print.plain Print.size
   Lex.s_dec Lex.s_hex Lex.go_dec Lex.go_hex
   LexStr.unescape LexStr.quote LexStr.long_denot LexStr.normalize_nl
-  Stat.parse_chunk.
+  Stat.parse_chunk StatPrint.print_chunk StatPrint.wf_block.
